@@ -472,10 +472,17 @@ func wholeCard(dr *carddav.AddressDataRequest) bool {
 func projectionModel(dr *carddav.AddressDataRequest, card vcard.Card) (required map[string]bool, optionalFold []string) {
 	required = map[string]bool{"VERSION": true}
 	for _, p := range dr.Props {
-		if _, ok := card[p]; ok {
+		has := false
+		for _, f := range card[p] {
+			if f != nil {
+				has = true
+			}
+		}
+		if has {
 			required[p] = true
 			continue
 		}
+		// (a key without any field is an absent property: nothing required)
 		for k := range card {
 			if asciiFoldEq(k, p) {
 				optionalFold = append(optionalFold, p)
